@@ -421,7 +421,16 @@ def classify17(fail):
     ops = [o[0] for o in fail["history"]]
     d = fail.get("detail", "")
     if "already finished" in d and "pull" in ops and ("kill" in ops or "clock" in ops):
-        # the pull must have blocked: it precedes the add of the job it received
+        # the receiving worker's pull must have blocked: the hand-off (pushjob through add / re-add, or through the
+        # shutdown of another worker's connection) comes after that pull, and the kill / time-out after the hand-off
+        import re as _re
+        mw = _re.search(r"worker (\d+) received", d)
+        pulls = [i for i, o in enumerate(fail["history"]) if o[0] == "pull" and (mw is None or str(o[1]) == mw.group(1))]
+        if pulls:
+            p = pulls[-1] if mw else pulls[0]
+            for h in range(p + 1, len(ops)):
+                if ops[h] in ("add", "readd", "disconnect") and any(x in ("kill", "clock") for x in ops[h + 1:]):
+                    return "finished-between-handoff-and-resume"
         first_pull = ops.index("pull")
         if "add" in ops[first_pull:]:
             return "finished-between-handoff-and-resume"
